@@ -130,6 +130,11 @@ TargetNames(t) ==
     [] t.k = "Starred" -> TargetNames(t.v)
     [] OTHER -> {}
 
+\* plain values on which iter() raises TypeError (strings / bytes / sets iterate, but their items are not modelled)
+NotIterable(v) == v.k \in {"none", "b", "slice", "fn"} \/ (v.k = "c" /\ v.t \in {"int", "float", "complex", "ellipsis"})
+\* plain values that are not mappings (no .keys): `**v` raises TypeError
+NotMapping(v) == v.k \in {"none", "b", "c", "seq", "slice"}
+
 SwapCmp(op) == CASE op = "lt" -> "gt" [] op = "gt" -> "lt" [] op = "le" -> "ge" [] op = "ge" -> "le" [] OTHER -> op
 
 \* ---------------------------------------------------------------- the machine
@@ -156,7 +161,7 @@ Iterate(val, st, tr, env, kind) ==
                      IF Stop(it) THEN L(it.st, <<>>, it.x, env) ELSE Drain(it.v, it.st, tr, env, kind, <<>>)
   ELSE IF val.k = "seq" /\ val.t # "set" THEN L(st, val.e, "", env)
   ELSE IF val.k = "dict" THEN L(st, val.ks, "", env)
-  ELSE IF val.k \in {"none", "b"} THEN L(st, <<>>, "TypeError", env)
+  ELSE IF NotIterable(val) THEN L(st, <<>>, "TypeError", env)
   ELSE L(NotMod(st, kind, "iteration of a plain " \o val.k), <<>>, "", env)
 
 \* display elements / positional arguments, left to right, starred ones iterated in place
@@ -293,6 +298,7 @@ EvalKws(kws, i, st, tr, env, names, vals) ==
             IF \E j \in 1..Len(r.v.ks) : KwPos(names, r.v.ks[j]) # 0
             THEN [st |-> NotMod(r.st, "DStar", "duplicate keyword from a dict display"), names |-> names, vs |-> vals, x |-> "", env |-> r.env]
             ELSE EvalKws(kws, i + 1, r.st, tr, r.env, names \o r.v.ks, vals \o r.v.vs)
+       ELSE IF NotMapping(r.v) /\ ~Has(st, "dstar-pairs") THEN [st |-> r.st, names |-> names, vs |-> vals, x |-> "TypeError", env |-> r.env]
        ELSE [st |-> NotMod(r.st, "DStar", "** of a plain " \o r.v.k), names |-> names, vs |-> vals, x |-> "", env |-> r.env]
 
 \* deviation dstar-pairs: dict.update(iterable of pairs) instead of "not a mapping"
@@ -312,6 +318,10 @@ NameOf(kd) == IF kd.k = "c" THEN kd.s ELSE "?"
 \* TypeError raised by keyword processing: CPython's message formats the callee (str(f) is an event
 \* for a recorder callee); the event is accepted when present, never required
 KwErr(st, tr, env, fv) == Ex(IF NextIs(st, tr, "conv", "s", fv) THEN Adv(st) ELSE st, "TypeError", env)
+
+\* the same for a SOLE starred argument that is a plain non-iterable ("f() argument after * must be an iterable")
+StarErr(a, sval, fv, tr, env) ==
+  IF a.st.ok /\ a.x = "TypeError" /\ ~IsRec(sval) THEN KwErr(a.st, tr, env, fv) ELSE Ex(a.st, a.x, env)
 
 \* str(arg) of every positional argument (deviation call-str-args)
 ReprWalkStr(args, st, tr, env) ==
@@ -341,6 +351,8 @@ CallNode(n, st, tr, env) ==
                  IF Stop(c) THEN c
                  ELSE Ok(c.st, SeqV(n.f.id, IF n.f.id = "set" THEN Dedupe(c.v.e, 1, <<>>) ELSE c.v.e), c.env)
             ELSE Ex(NotMod(f.st, "GeneratorExp", "lazy generator"), "", f.env)
+  ELSE IF n.f.k = "Name" /\ n.f.id \in Builtins /\ n.f.id \notin DOMAIN env /\ Len(n.args) = 0 /\ Len(n.kws) = 0
+       THEN Ok(f.st, SeqV(n.f.id, <<>>), f.env)            \* list() / tuple() / set(): the empty container
   ELSE IF Has(st, "call-kw-first") THEN
        LET kw == EvalKws(n.kws, 1, f.st, tr, f.env, <<>>, <<>>) IN
        IF kw.x = "TypeError" /\ kw.st.ok THEN KwErr(kw.st, tr, kw.env, f.v) ELSE IF kw.x # "" \/ ~kw.st.ok THEN Ex(kw.st, kw.x, kw.env) ELSE
@@ -351,16 +363,17 @@ CallNode(n, st, tr, env) ==
        \* a sole starred argument: CPython 3.12 converts it to a tuple at the call, i.e. AFTER the
        \* keywords; the language does not fix this - both placements are accepted (lookahead)
        LET sv == Eval(n.args[1].v, f.st, tr, f.env) IN IF Stop(sv) THEN sv ELSE
-       IF Len(n.kws) = 0 \/ NextIs(sv.st, tr, "iter", "", sv.v) THEN
+       \* (a plain value that is not iterable: TypeError in place = the recording ends here, or after the keywords)
+       IF Len(n.kws) = 0 \/ NextIs(sv.st, tr, "iter", "", sv.v) \/ (~IsRec(sv.v) /\ NotIterable(sv.v) /\ sv.st.l > Len(tr)) THEN
             LET a == Iterate(sv.v, sv.st, tr, sv.env, "Starred") IN
-            IF a.x # "" \/ ~a.st.ok THEN Ex(a.st, a.x, sv.env) ELSE
+            IF a.x # "" \/ ~a.st.ok THEN StarErr(a, sv.v, f.v, tr, sv.env) ELSE
             LET kw == EvalKws(n.kws, 1, a.st, tr, sv.env, <<>>, <<>>) IN
             IF kw.x = "TypeError" /\ kw.st.ok THEN KwErr(kw.st, tr, kw.env, f.v) ELSE IF kw.x # "" \/ ~kw.st.ok THEN Ex(kw.st, kw.x, kw.env) ELSE
             FinishCall(f.v, a.vs, kw.names, kw.vs, kw.st, tr, kw.env, 0)
        ELSE LET kw == EvalKws(n.kws, 1, sv.st, tr, sv.env, <<>>, <<>>) IN
             IF kw.x = "TypeError" /\ kw.st.ok THEN KwErr(kw.st, tr, kw.env, f.v) ELSE IF kw.x # "" \/ ~kw.st.ok THEN Ex(kw.st, kw.x, kw.env) ELSE
             LET a == Iterate(sv.v, kw.st, tr, kw.env, "Starred") IN
-            IF a.x # "" \/ ~a.st.ok THEN Ex(a.st, a.x, kw.env) ELSE
+            IF a.x # "" \/ ~a.st.ok THEN StarErr(a, sv.v, f.v, tr, kw.env) ELSE
             FinishCall(f.v, a.vs, kw.names, kw.vs, a.st, tr, kw.env, 0)
   ELSE LET a == EvalElts(n.args, 1, f.st, tr, f.env, <<>>) IN
        IF a.x # "" \/ ~a.st.ok THEN Ex(a.st, a.x, a.env) ELSE
@@ -390,6 +403,7 @@ DictDisplay(n, i, st, tr, env, d) ==
             LET RECURSIVE Put2(_, _)
                 Put2(j, dd) == IF j > Len(m.v.ks) THEN dd ELSE Put2(j + 1, DictPut(dd, m.v.ks[j], m.v.vs[j], 1))
             IN DictDisplay(n, i + 1, m.st, tr, m.env, Put2(1, d))
+       ELSE IF NotMapping(m.v) /\ ~Has(st, "dstar-pairs") THEN Ex(m.st, "TypeError", m.env)
        ELSE Ex(NotMod(m.st, "DStar", "** of a plain " \o m.v.k), "", m.env)
   ELSE IF Has(st, "dict-value-first") THEN
        LET v == Eval(n.vals[i], st, tr, env) IN IF Stop(v) THEN v ELSE
@@ -419,7 +433,7 @@ CompGen(n, gi, st, tr, env, acc) ==
        IF Stop(it) THEN L(it.st, acc, it.x, itv.env) ELSE CompLoop(n, gi, it.v, <<>>, 1, it.st, tr, itv.env, acc)
   ELSE IF itv.v.k = "seq" /\ itv.v.t # "set" THEN CompLoop(n, gi, NoIt, itv.v.e, 1, itv.st, tr, itv.env, acc)
   ELSE IF itv.v.k = "dict" THEN CompLoop(n, gi, NoIt, itv.v.ks, 1, itv.st, tr, itv.env, acc)
-  ELSE IF itv.v.k \in {"none", "b"} THEN L(itv.st, acc, "TypeError", itv.env)
+  ELSE IF NotIterable(itv.v) THEN L(itv.st, acc, "TypeError", itv.env)
   ELSE L(NotMod(itv.st, n.k, "iteration of a plain " \o itv.v.k), acc, "", itv.env)
 
 CompLoop(n, gi, it, items, j, st, tr, env, acc) ==
@@ -613,7 +627,7 @@ Unpack(ts, v, st, tr, env) ==
        LET items == IF v.k = "dict" THEN v.ks ELSE v.e IN
        IF Len(items) < need \/ (sp = 0 /\ Len(items) > need) THEN S(st, env, "ValueError")
        ELSE AssignSeq(ts, items, 1, st, tr, env)
-  ELSE IF v.k \in {"none", "b"} \/ (v.k = "c" /\ v.t \in {"int", "float"}) THEN S(st, env, "TypeError")
+  ELSE IF NotIterable(v) THEN S(st, env, "TypeError")
   ELSE S(NotMod(st, "Unpack", "unpacking a plain " \o v.k), env, "")
 
 AssignTo(t, v, st, tr, env) ==
@@ -704,6 +718,13 @@ Exec(body, i, st, tr, env) ==
 
 \* ---------------------------------------------------------------- verdict on one recording
 SameEnv(a, b) == DOMAIN a = DOMAIN b /\ \A m \in DOMAIN a : Same(a[m], b[m])
+\* which binding differs (a = the machine's final environment, b = the recorded one)
+EnvDiff(a, b) ==
+  LET bad == {m \in DOMAIN a \cup DOMAIN b : IF m \in DOMAIN a /\ m \in DOMAIN b THEN ~Same(a[m], b[m]) ELSE TRUE}
+      m == CHOOSE m \in bad : TRUE
+  IN IF m \notin DOMAIN b THEN "a name is bound in Python and not in the recording"
+     ELSE IF m \notin DOMAIN a THEN "a name is unbound in Python and bound in the recording"
+     ELSE "a name is bound to another value than in Python"
 
 \* rec = [trace, exc, final, heap];  result [ok, kind, why, at, nm]
 Accept(c, rec, fl) ==
@@ -714,6 +735,6 @@ Accept(c, rec, fl) ==
                        nm |-> r.st.nm]
      ELSE IF r.st.l # Len(rec.trace) + 1 THEN bad("program", "extra events after the program completed: " \o rec.trace[r.st.l].e)
      ELSE IF r.x # rec.exc THEN bad("program", "exception differs: machine '" \o r.x \o "' recorded '" \o rec.exc \o "'")
-     ELSE IF ~SameEnv(r.env, rec.final) THEN bad("program", "final bindings differ")
+     ELSE IF ~SameEnv(r.env, rec.final) THEN bad("program", "final bindings differ: " \o EnvDiff(r.env, rec.final))
      ELSE [ok |-> TRUE, kind |-> "", why |-> "", at |-> r.st.l, nm |-> FALSE]
 =============================================================================
